@@ -217,6 +217,28 @@ pub fn configs(tier: Tier, judge: u32, liveness: bool) -> Vec<OutCfg> {
                 });
             }
         }
+        // a send refused locally because its caller-chosen id is in use must leave the exchange that owns the id -
+        // and its window slot - alone (seeded change C05_r6 'cleaned up' the newest entry with that id)
+        if !liveness {
+            for senders in [vec![SK::Q1Id(5), SK::Q1Id(5), SK::Q1, SK::Q1], vec![SK::Q1, SK::Q1Id(5), SK::Q1Id(5), SK::Q1Loop(2)]] {
+                v.push(OutCfg {
+                    ep: ep_for(EpCfg::new(ver, role), 2, false),
+                    cap: 2,
+                    senders,
+                    cancels: 0,
+                    batch: false,
+                    bp: 0,
+                    peer: PeerMode::Correct,
+                    judge,
+                    prologue: 0,
+                    peer_max_packet: 0,
+                    inbound: 0,
+                    may_close: false,
+                    inbound_faults: false,
+                    cancel_inflight: false,
+                });
+            }
+        }
         // QoS 2 sends whose receipt is dropped instead of released: PUBREL is written by the drop, nobody awaits
         // PUBCOMP, and the slot it frees must still wake the next parked sender (seeded change C13_r5)
         for (cap, senders) in [(1u16, vec![SK::Q2Drop, SK::Q1]), (1, vec![SK::Q2Drop, SK::Ready, SK::Q1]), (2, vec![SK::Q2Drop, SK::Q1, SK::Q1])] {
